@@ -41,10 +41,14 @@ QUICK = [
     (("TD", dict(T=2, nw=3)), 1),
     (("TD", dict(T=1, nw=3, with_x=False)), 3),
     (("TG", dict(T=1)), 2),
+    (("TG", dict(T=1), None, (1, 0), None), 2),  # continuous choices declared in non-alphabetical order (x, c)
+    (("TD", dict(T=1, nw=3), None, (3, 2, 1, 0), None), 2),  # choices declared x, c, e, r
     (("TH", dict(T=2)), 3),
     (("TM", dict(T=2)), 2),
     (("TE", dict(T=2)), 2),
     (("TP", dict(T=2)), 2),
+    (("TQ", dict(T=2)), 2),  # agents with 3 and 1 admissible rows
+    (("TQ", dict(T=1)), 4),
 ]
 THOROUGH = QUICK + [
     (("TD", dict(T=2, nw=3)), 2),
